@@ -33,7 +33,7 @@ TogetherNext == LET ph == Len(hist) % 5 IN
                 /\ \/ ph = 0 /\ SvcConnect("s1", TRUE)
                    \/ ph = 1 /\ SvcConnect("s2", TRUE)
                    \/ ph = 2 /\ \E w \in {"agent", "listener", "exc2"} : (IF Len(hist) = 2 THEN TRUE ELSE hist[3].b = w \o ":x1") /\ SvcReg("s1", w, "x1")
-                   \/ ph = 3 /\ SvcReg("s2", "agent", "x2")
+                   \/ ph = 3 /\ \E w \in {"agent", "exc2"} : (IF Len(hist) = 3 THEN TRUE ELSE hist[4].b = w \o ":x2") /\ SvcReg("s2", w, "x2")
                    \/ ph = 4 /\ SvcLeaveTogether
 TogetherSpec == Init /\ [][TogetherNext]_vars
 (* listeners across restarts: one that cannot bind while the teamserver starts, then a clean start *)
